@@ -51,17 +51,28 @@ def make_rsa(rng: Rng, bits: int = 2048, params=None, avoid: RKey | None = None)
         cands = [i for i in cands if rsa_pool()[i]["n"] != n] or cands
     i = rng.pick(cands)
     if i not in _RSA_CACHE:
-        j = {k: v for k, v in rsa_pool()[i].items() if k != "bits"}
-        _RSA_CACHE[i] = rk.from_jwk(j)
+        _RSA_CACHE[i] = _load_pool_key(rsa_pool()[i])
     base = _RSA_CACHE[i]
     return RKey("RSA", None, base.pub, base.priv, None, dict(params or {}))
+
+
+def _load_pool_key(j: dict) -> RKey:
+    if j["bits"] <= 4096:
+        return rk.from_jwk({k: v for k, v in j.items() if k != "bits"})
+    # the consistency check OpenSSL runs on an 8192 bit private key takes seconds: the fixture is trusted, skip it
+    from cryptography.hazmat.primitives.asymmetric import rsa
+    from .refjose import b64
+    g = lambda name: int.from_bytes(b64.dec(j[name]), "big")
+    pub = rsa.RSAPublicNumbers(g("e"), g("n"))
+    priv = rsa.RSAPrivateNumbers(g("p"), g("q"), g("d"), g("dp"), g("dq"), g("qi"), pub).private_key(unsafe_skip_rsa_key_validation=True)
+    return RKey("RSA", None, priv.public_key(), priv, None, {})
 
 
 def warm_rsa_cache() -> None:
     """load every pool key once (50 ms of OpenSSL key checks each); useful before forking per-run children"""
     for i, j in enumerate(rsa_pool()):
-        if i not in _RSA_CACHE:
-            _RSA_CACHE[i] = rk.from_jwk({k: v for k, v in j.items() if k != "bits"})
+        if i not in _RSA_CACHE and j["bits"] <= 4096:
+            _RSA_CACHE[i] = _load_pool_key(j)
 
 
 def make_oct(rng: Rng, nbytes: int = 32, params=None) -> RKey:
@@ -122,7 +133,8 @@ def key_for_jws(rng: Rng, alg: str, params=None, avoid=None) -> RKey:
         return make_oct(rng, rng.pick([1, 16, 32, 33, 64, 100]), params)
     if kty == "RSA":
         # moduli whose bit length is not a multiple of 8 (and of 64) exist in the field: signatures are as long as the modulus in octets
-        return make_rsa(rng, rng.pick([2048, 2048, 2048, 2047, 2040]), params, avoid)
+        # ... and large ones: an RSA-8192 signature is 1024 octets, 1366 characters on the wire
+        return make_rsa(rng, 8192 if rng.chance(0.04) else rng.pick([2048, 2048, 2048, 2047, 2040]), params, avoid)
     return make_kind(rng, kty, crv, params, avoid=avoid)
 
 
